@@ -27,6 +27,12 @@ Definition part_name (p : part) : string := match p with Train => "train" | Test
 Lemma bridge_split_order : map part_name split_order = gen_split_order.
 Proof. reflexivity. Qed.
 
+(* the loaders keep no state between calls as far as the source shows it: no decorator (such as a
+   cache) on _load_dataset, on any load_<dataset> or on load_from_tsfile_to_dataframe, and no
+   global / nonlocal statement inside them; their bodies are pinned (gen_pinned_fragments) *)
+Lemma bridge_loaders_stateless : gen_loader_decorators = [] /\ gen_loader_global_statements = [].
+Proof. split; reflexivity. Qed.
+
 (* ---- tags ---- *)
 
 (* the tag of a header item: its leading literal up to the first blank *)
